@@ -41,8 +41,9 @@ def routing_positions(seed, d, w, H):
 
     Lmin = float(np.diag(H).min())
     nb = int(Lmin / 2.0 / w)
-    for t in range(2000):
-        pts = np.array(A.generic_points(seed, 6, d, tag=f"route{d}{t}_")) * (2.6 if d == 3 else 3.4) + 1.0
+    for t in range(40000):
+        scale = (2.6 if d == 3 else 3.4) * (1.0 if t < 2000 else 0.8)
+        pts = np.array(A.generic_points(seed, 6, d, tag=f"route{d}{t}_")) * scale + 1.0
         pb = pair_bins(pts, H, [1] * d, w, nb)
         ks = [k for (_, _, _, k, amb) in pb]
         if all(amb is None for (*_, amb) in pb) and len(set(ks)) == 15 and max(ks) < nb:
@@ -64,7 +65,7 @@ def frames_for(seed, base, F, H, d):
 def gen_routing(tier, seed):
     geoms = [(3, "orth", 0.1)]
     if tier == "thorough":
-        geoms = [(3, "orth", 0.1), (2, "orth", 0.1), (3, "tri-", 0.1), (2, "tri+", 0.1), (3, "orth", 0.13), (2, "orth", 0.13), (3, "orthp", 0.1), (2, "trip", 0.1)]
+        geoms = [(3, "orth", 0.1), (2, "orth", 0.1), (3, "tri-", 0.1), (2, "tri+", 0.1), (3, "orth", 0.11), (2, "orth", 0.11), (3, "orthp", 0.1), (2, "trip", 0.1)]
     for (d, cell, w) in geoms:
         H = cell_for(d, cell)
         pos = routing_positions(seed, d, w, H)
